@@ -41,6 +41,23 @@ CHECKS = {
    technique="deterministic simulation with a simulated peer sending chunk histories: all chunk-kind sequences up to length 4 and all 256 control bytes in every reachable chunk state realised as concrete streams, seeded longer walks under fragmentation/Read schedules, oracle = format chunk-rule automaton cross-checked per case against reference decoder and liblzma; writer side: chunk headers walked in recorded writer histories",
    text="Two complete sub-spaces (2800 short sequences, 5x256 control bytes) inside a seeded exploration (walks up to 14 chunks, writer histories of the LZMA2 and xz writers). Legal => decoded content equals generator content; illegal at chunk j => non-EOF error and no byte beyond the chunks before j.",
    note="Exploration level overall; the enumerated sub-spaces are reported under exhaustive_subspaces. Legality automaton cross-checked against reflzma and liblzma on every case."),
+
+ "C04": dict(engine="dfault", cat="fault_enumeration", ref="DESIGN.md §4 C04",
+   technique="deterministic simulation of stored-data faults between writer and reader: per sampled stream every single-bit flip, every one-byte deletion and insertion, seeded bursts (<=32 bits) / range edits / double flips, and a structural mutator that edits one redundant field and re-seals the CRC32s (each edit first shown to the independent reference parser, which must reject it)",
+   text="The per-stream fault spaces (all bit flips, all byte insert/delete offsets, all applicable field edits) are enumerated completely; streams (single-/multi-block, all check types, library- and generator-written, multi-stream for field edits) are sampled. Oracle 1: never a clean EOF after bytes that differ from the original (genuine checksum collisions counted, not reported). Oracle 2: every field edit the reference parser rejects must be reported as an error, also for check None.",
+   note="Trusted base: refxz/reflzma for sites and for the mutator's self-check (a still-valid edit is exit 2). Streams are sampled; beyond 16 KiB or when a deterministic cost proxy is exceeded, positions are strided with structure boundaries kept."),
+ "C05": dict(engine="dfault", cat="fault_enumeration", ref="DESIGN.md §4 C05",
+   technique="deterministic simulation with the single stored-data fault 'writer process died / tail lost': every cut position of each sampled stream (.xz single- and multi-stream, raw LZMA2, .lzma in three termination modes) is decoded behind the simulated source",
+   text="Exhaustive per stream (every proper prefix; for multi-stream files cuts on stream-end / 4-byte padding boundaries excluded as the property says); streams sampled from the library writers and the reference encoder. Oracle: open or some Read fails with a non-EOF error (a bare io.EOF from a constructor counts as end-of-stream, i.e. as failure of the property); bytes delivered before are a prefix of the content.",
+   note="Process-crash semantics (stored prefix intact). Streams > 16 KiB or very many blocks: strided cuts with all structure boundaries kept (counters in evidence say how many streams were enumerated completely)."),
+ "C09": dict(engine="iofault", cat="fault_enumeration", ref="DESIGN.md §4 C09",
+   technique="deterministic simulation with a fault-injecting sink and source: every sink-call index k x {fail once, fail forever} x {no bytes, partial write} over xz/LZMA/LZMA2 writer histories always finished with Close, Close; every source offset 0..len x {bare error, error together with data} over the three readers (incl. SingleStream)",
+   text="Per scenario the fault positions are enumerated completely (K re-counted per run); scenarios are sampled. Writer oracle: no panic in any call, some call returns an error whenever the sink returned one, and a history in which every call returned nil leaves a complete valid stream. Reader oracle: the injected error (or one wrapping it) surfaces from open or Read, never io.EOF, no panic, delivered bytes a prefix of the content.",
+   note="Source errors are sticky by design (io.ReadFull / LimitReader / byte adapters legitimately drop an error that arrives with enough data). Sinks never return short counts without an error. ByteWriter sinks with > 400 calls are strided."),
+ "C11": dict(engine="dfault+rsim", cat="exploration", ref="DESIGN.md §4 C11",
+   technique="deterministic simulation of hostile stored data for the three readers: seeded structure-aware fault injection (up to 3 stacked bit/byte/range faults on valid streams with CRC32s re-sealed half of the time, header-valid garbage incl. hostile uvarints/record counts/chunk headers, PRNG bytes) under fragmentation and Read schedules, with a per-Read step budget counted at the source seam and a wall-clock watchdog",
+   text="Seeded exploration without coverage feedback (honest limit: this is not coverage-guided fuzzing). Oracle: no panic escapes, 0 <= n <= len(p), every Read returns within the step budget (<=16 empty source calls, <= len(input)+16 source calls) and the 30 s watchdog. Inputs declaring > 64 MiB of dictionary are excluded as the property says.",
+   note="Outcome classes and which structure faults landed in are counted in evidence as reach probes."),
 }
 
 NOT_APPLICABLE = {
